@@ -56,7 +56,7 @@ def config(rng):
     ff = rng.choice(common.FFS)
     opts = [f"--ff={ff}"]
     flavour = rng.choice(["plain", "plain", "propka", "dropwater", "ffout", "whitespace", "neutral", "noopt", "assign",
-                          "clean", "keepchain", "userff"])
+                          "clean", "keepchain", "userff", "usernames"])
     if flavour == "propka":
         opts += ["--titration-state-method=propka", "--with-ph=%.1f" % rng.choice([2.0, 4.5, 7.0, 9.5, 12.0])]
     elif flavour == "dropwater":
@@ -74,6 +74,9 @@ def config(rng):
     elif flavour == "keepchain":
         opts += ["--keep-chain"]
     userff = None
+    if flavour == "usernames":
+        userff = {"ffseed": rng.randrange(10 ** 6), "base": ff, "names_only": True}
+        opts = [f"--ff={ff}", "--usernames={dir}/u.names"]
     if flavour == "userff":
         userff = {"ffseed": rng.randrange(10 ** 6), "base": rng.choice(["AMBER", "PARSE", "CHARMM"])}
         opts = ["--userff={dir}/u.dat", "--usernames={dir}/u.names"]
@@ -107,8 +110,12 @@ def run_cfg(cfg):
     extra = None
     if cfg.get("userff"):
         from ..gen import ffgen
-        dat, names, _ = ffgen.make(random.Random(cfg["userff"]["ffseed"]), cfg["userff"]["base"])
-        extra = {"u.dat": dat, "u.names": names}
+        if cfg["userff"].get("names_only"):
+            names, _ = ffgen.make_names_only(random.Random(cfg["userff"]["ffseed"]), cfg["userff"]["base"])
+            extra = {"u.names": names}
+        else:
+            dat, names, _ = ffgen.make(random.Random(cfg["userff"]["ffseed"]), cfg["userff"]["base"])
+            extra = {"u.dat": dat, "u.names": names}
     r = pipeline.run(text, opts, workname="c11", extra_files=extra)
     if r.ok and r.pqr_text is not None:
         return "ok:" + hashlib.sha1(r.pqr_text.encode()).hexdigest(), r.pqr_text
@@ -227,9 +234,27 @@ def run_history(spec, res):
         res.count("fresh_processes")
         if ref[c["id"]].startswith("harness-error"):
             raise RuntimeError(ref[c["id"]])
+    # the same structure under a bundled force field with and without a user names file (P, U, P)
+    P = None
+    for k in range(200):
+        c = config(random.Random(spec["seed"] * 13 + k))
+        if c["fail"] is None and c.get("flavour") == "plain" and c["w"] and not c["w"].get("named"):
+            P = c
+            break
+    extra_pair = []
+    if P is not None:
+        ff = P["opts"][0][5:]
+        U = dict(P, flavour="usernames", opts=[f"--ff={ff}", "--usernames={dir}/u.names"],
+                 userff={"ffseed": spec["seed"] % 100003, "base": ff, "names_only": True})
+        U["id"] = hashlib.sha1(json.dumps([U["w"], U["opts"], U["userff"]], sort_keys=True).encode()).hexdigest()[:10]
+        for c in (P, U):
+            if c["id"] not in ref:
+                ref[c["id"]] = fresh(c, 0)
+                res.count("fresh_processes")
+        extra_pair = [P, U, P]
     # history with forced patterns
     A, B = pool[0], pool[1]
-    hist = [A, B, A, fails[0], A, B, fails[-1], B]
+    hist = [A, B, A, fails[0], A, B, fails[-1], B] + extra_pair
     hist += [rng.choice(pool + fails) for _ in range(rng.randint(4, 14))]
     hist += [A]
     import_all()
